@@ -22,23 +22,36 @@ LEVEL_TEXT = ('Partial. Coq theorems over R about the hand model of trust_region
               '(same exit, returned point, flag, callback/update_precond sequence, next state): order convergence-test/acceptance-test, rho and its re-signing, `not rho >= eta2`, radius updates, willAccept, preconditioner refresh, two-stage too-small exit. '
               'The prologue, Cauchy-point block, outer for and max-iterations exit of the extracted tree are compared with the hand model only by execution (bit-for-bit on every generated case), not proved. '
               'Finding F1 (converged exit can go uphill) proved for the binary64 instance of the model by vm_compute and replayed on the code. '
-              'Not proved (tested by L2 only): success on strictly convex problems (dedicated stream: default settings, 1..40 unknowns, condition numbers 1..1e3, three preconditioners, against an independent Newton reference), finiteness of iterates, the +0.0 model-objective corner, the driver nonlinear_equation_solve.')
+              'Driver (round 4): model/M_C01_Drv.v interprets the extracted syntax tree of nonlinear_equation_solve with a meaning for the store objective.p = p (oracles are functions of the parameter current at call time, any parameter type; update_precond remembers its build-time parameter; warm start = arbitrary read-only oracle; Python argument binding incl. the default solver_algorithm read off the tree). '
+              'Theorems, for every number type / parameter type / warm-start oracle / scaling / solver / callback-or-None / useWarmStart / updatePrecond / entry state: C01_driver_is_the_extracted_source (interpreting the extracted tree = hand-written closed form: result, objective.p and preconditioner state afterwards, whole effect sequence), '
+              'C01_driver_installs_requested_parameters_on_every_path (on every return, success or failure flag, objective.p = requested p; only update_precond under the OLD p precedes the store; then the optional update_precond under the new p and the ONE solver call made under p; returned flag/point are that call\'s), '
+              'C01_driver_success_means_small_gradient_under_requested_parameters (over R, solver := hand model of trust_region_minimize, arbitrary oracles: success => |grad_p(xBar)|^2 < tol^2 at the solver\'s point, x = invScaling*xBar). '
+              'NaN rejection (round 4): C01_nan_change_is_rejected_and_shrinks (any number type whose isnan obeys the IEEE laws for -, unary -, / and the comparisons: NaN measured change => not accepted and radius * t1, all re-signing / zero-denominator branches), the laws proved for binary64 from Coq\'s FloatAxioms, hence '
+              'C01_nan_change_is_rejected_and_shrinks_binary64 and C01_nan_valued_point_is_never_accepted_binary64 (default mode, arbitrary float oracles: no Accept event of any run carries a NaN objective value). '
+              'Not proved (tested by L2 only): success on strictly convex problems (dedicated stream: default settings, 1..40 unknowns, condition numbers 1..1e3, three preconditioners, against an independent Newton reference); the rest of finiteness (no overflow in the arithmetic that forms the trial point, +inf values, incremental mode, NaN value at the converged exit = F1 mechanism); the +0.0 model-objective corner; '
+              'the driver\'s success theorem with the solver\'s OWN extracted tree as callee (needs the outer-loop tie; both solvers are executed against each other and the implementation, stream driver_model); exceptions raised by the solver / warm start.')
 TECHNIQUE = 'Coq proof (Reals, lra/nra) on a hand-written state-machine model; vm_compute/PrimFloat correspondence on seeded polynomial objectives'
 GEN = ['EquationSolver', 'CFG_TR']
-TARGETS = ['model/M_C06_Vec.vo', 'model/M_C06_CG.vo', 'model/M_C01_TR.vo', 'model/M_C01_CFG.vo', 'gen/CFG_TR.vo', 'proofs/L_C06_Vec.vo', 'proofs/L_C01.vo', 'proofs/L_C01_F1.vo', 'proofs/L_C01_CFG.vo']
-COQ_FILES = ['base/Num.v', 'model/M_C06_Vec.v', 'model/M_C06_CG.v', 'model/M_C01_TR.v', 'proofs/L_C06_Vec.v', 'proofs/L_C01.v', 'proofs/L_C01_F1.v', 'model/M_C01_CFG.v', 'proofs/L_C01_CFG.v', 'props/P_C01.v']
+TARGETS = ['model/M_C06_Vec.vo', 'model/M_C06_CG.vo', 'model/M_C01_TR.vo', 'model/M_C01_CFG.vo', 'gen/CFG_TR.vo', 'proofs/L_C06_Vec.vo', 'proofs/L_C01.vo', 'proofs/L_C01_F1.vo', 'proofs/L_C01_CFG.vo', 'model/M_C01_Drv.vo', 'proofs/L_C01_Drv.vo', 'proofs/L_C01_NaN.vo']
+COQ_FILES = ['base/Num.v', 'model/M_C06_Vec.v', 'model/M_C06_CG.v', 'model/M_C01_TR.v', 'proofs/L_C06_Vec.v', 'proofs/L_C01.v', 'proofs/L_C01_F1.v', 'model/M_C01_CFG.v', 'proofs/L_C01_CFG.v', 'model/M_C01_Drv.v', 'proofs/L_C01_Drv.v', 'proofs/L_C01_NaN.v', 'props/P_C01.v']
 TRUSTED = ['Coq 8.16.1 kernel + vm_compute (no native_compute)',
            'hand model model/M_C01_TR.v (uses the C06 CG/dogleg model and the generated scalar kernels): its inner loop is proved equal to the interpreted syntax tree of the source; the rest (initial test, Cauchy block, outer loop) is tied by the correspondence: event kinds/order, flags, counts exact; points within 1e-7 relative',
            'tools/vlib/extract_tr.py (purely syntactic AST -> IR translation, fail closed; drops only docstrings, pass and print / print_banner / print_min_banner statements) and the interpreter model/M_C01_CFG.v as the meaning of the Python subset (late-binding closures, float quotients compared IEEE-like, dogleg_step / solve_trust_region_minimization / numpy norm, sqrt as primitives = the C06 models)',
            'harness: duck-typed polynomial objectives mirrored in Gallina (Section Poly), recording callback / update_precond, float<->(mantissa,exponent) exchange',
            'near-tie rule: a mismatch counts as unstable only if (a) the IMPLEMENTATION itself changes its discrete trace / result when the arguments of its oracles are perturbed by <= 2 ulp (8 trials), (c) some gradient the solver evaluated had |g|^2 within 1e-6 relative of tol^2 (the convergence test is a near tie), or (b) the run reached objective differences between reported iterates of <= 64 ulp (rho is then cancellation noise)',
-           'theorems are over exact reals (zero denominators treated as +0); binary64 rounding is covered only by the correspondence']
+           'theorems are over exact reals (zero denominators treated as +0); binary64 rounding is covered only by the correspondence (exception: the NaN-rejection theorems, which are about binary64 via Coq FloatAxioms: sub_spec, opp_spec, div_spec, eqb_spec, ltb_spec, leb_spec)',
+           'driver model model/M_C01_Drv.v as the meaning of the driver\'s Python (attribute store objective.p, Python call binding, objective oracles read objective.p at call time, preconditioner state = (build-time parameter, point)); tied by the stream driver_model: duck-typed objectives f(x,p) = poly(x) - p.x recording every store of p, the parameter current at every update_precond and gradient call; scalar / vector power-of-two scalings; real scipy warm start (its result fed to the model) or a stand-in that depends on every argument the oracle can read; all 8 combinations of useWarmStart / updatePrecond / callback',
+           'WarmStart.warm_start_increment only reads the objective: checked syntactically on WarmStart.py on every run (no store / rebinding, only jacobian_p_vec, jacobian_p2_vec, hessian_vec, apply_precond, p are touched)']
 ASSUMPTIONS = ['none on the oracles (value, gradient, hessian_vec, preconditioner are arbitrary functions)', '0 <= eta1 for the descent clause; use_incremental_objective=False for the descent clause',
-               '0 < t1 < 1, 0 < min_tr_size, eta1 <= eta2 for inner-loop termination', 'exact real arithmetic in theorems']
+               '0 < t1 < 1, 0 < min_tr_size, eta1 <= eta2 for inner-loop termination', 'exact real arithmetic in theorems',
+               'driver theorems: none on the oracles, the warm start (any function of old objective.p, preconditioner state, x, p), the scaling or the solver; exceptions not modelled; callback is a callable or None',
+               'NaN theorems: use_incremental_objective=False for the trace statement; generic statement has the IEEE NaN laws as premises (proved for binary64)']
 RULE = ('objectives f(x) = x.Ax/2 + b.x + sum c_i x_i^3 + sum d_i x_i^4 in 1..6 variables with dyadic coefficients (convex, indefinite, unbounded-below variants), optionally an inconsistent hessian_vec (A+E), '
         'identity / diagonal-at-update / stale preconditioners, settings drawn to force every exit (max_trust_iters 1..3 or default, tiny tr_size, huge min_tr_size, eta1 in {0,1e-10,0.3}, both inner-product modes, incremental mode); '
+        'stream nan-hole / inf-hole: the same family with the objective VALUE replaced by NaN / +inf on a half space 1/16..1 away from the start in the first coordinate (gradient finite), default mode; '
+        'stream driver_model: the same family with a parameter p (f - p.x), old and requested p, scaling, useWarmStart / updatePrecond / callback drawn at random; '
         'a case is non-trivial when the solver performs at least one inner iteration; distinct = distinct (objective, start, settings) tuples')
-IMPORTS = ['From OV.model Require Import M_C06_Vec M_C06_CG M_C01_TR M_C01_CFG.', 'From OV.gen Require Import CFG_TR.']
+IMPORTS = ['From OV.model Require Import M_C06_Vec M_C06_CG M_C01_TR M_C01_CFG M_C01_Drv.', 'From OV.gen Require Import CFG_TR.']
 PREAMBLE = '''
 Definition enc_ev (e : event float) : list Z :=
   match e with
@@ -55,6 +68,41 @@ Definition enc_res (r : option (list float * bool * list (@rawev float))) : list
 Definition run_cfg (A E : list (list float)) (b c d : list float) (pk : nat) (x0 : list float) (S : settings float) (chk : bool) : list Z :=
   enc_res (result_of (@run float NumF (pvalue A b c d) (pgrad A b c d) (phessvec A E c d) (pprecond A c d pk x0) (pmult A c d pk x0) S chk 80
                         cfg_functions cfg_string_constants 200 cfg_trust_region_minimize [VObj; VV x0; VSet; VCb] x0)).
+(* objectives with a hole: value = NaN (hm = 1) or +inf (hm = 2) where the first coordinate is beyond h (side: above / below); gradient unchanged *)
+Definition hole_value (hm : nat) (side : bool) (h : float) (v : list float -> float) (x : list float) : float :=
+  match hm with
+  | O => v x
+  | _ => let x1 := hd (F 0 0) x in
+         if (if side then @nltb float NumF h x1 else @nltb float NumF x1 h)
+         then (match hm with 1%nat => PrimFloat.nan | _ => PrimFloat.infinity end) else v x
+  end.
+Definition run_poly_h (A E : list (list float)) (b c d : list float) (pk : nat) (x0 : list float) (S : settings float) (hm : nat) (side : bool) (h : float) : list Z :=
+  enc_run (@trust_region_minimize float NumF (hole_value hm side h (pvalue A b c d)) (pgrad A b c d) (phessvec A E c d) (pprecond A c d pk x0) (pmult A c d pk x0) S 80 x0 x0).
+Definition run_cfg_h (A E : list (list float)) (b c d : list float) (pk : nat) (x0 : list float) (S : settings float) (chk : bool) (hm : nat) (side : bool) (h : float) : list Z :=
+  enc_res (result_of (@run float NumF (hole_value hm side h (pvalue A b c d)) (pgrad A b c d) (phessvec A E c d) (pprecond A c d pk x0) (pmult A c d pk x0) S chk 80
+                        cfg_functions cfg_string_constants 200 cfg_trust_region_minimize [VObj; VV x0; VSet; VCb] x0)).
+(* the driver: the syntax tree of nonlinear_equation_solve extracted from the source, run by the interpreter of model/M_C01_Drv.v; objective
+   f(x, p) = poly(x) - p.x (parameter type: vectors), solver = the interpreted tree of trust_region_minimize or the hand model *)
+Definition enc_devent (e : @devent float (list float)) : list Z :=
+  match e with
+  | DUpdatePrecond par x => 7 :: fencs par ++ fencs x
+  | DSetP p => 8 :: fencs p
+  | DSolve g par pcp xp args x fl ev => 9 :: fencs par ++ flat_map enc_rawev ev
+  end.
+Definition enc_dres (r : option (list float * bool * list float * list float * list float * list (@devent float (list float)))) : list Z :=
+  match r with None => [(-1)%Z] | Some (x, f, par, pcp, xp, tr) => benc f ++ fencs x ++ fencs par ++ flat_map enc_devent tr end.
+Definition run_drv (tree : bool) (A E : list (list float)) (b c d : list float) (pk : nat) (x0 : list float) (S : settings float) (chk : bool)
+    (sc isc : scal float) (standin : bool) (dx pold pnew : list float) (has_cb uw up : bool) : list Z :=
+  let value := fun p : list float => pvalue A (vsub b p) c d in
+  let grad := fun p : list float => pgrad A (vsub b p) c d in
+  let hv := fun _ : list float => phessvec A E c d in
+  let pc := fun _ _ : list float => pprecond A c d pk x0 in
+  let pm := fun _ _ : list float => pmult A c d pk x0 in
+  let warm := fun (par pcp : list float) (xp x : list float) (pn : list float) =>
+    if standin then vadd (vscale (F 1 (-2)) (vsub par pn)) (vadd (vscale (F 1 (-3)) x) (vscale (F 1 (-4)) (pprecond A c d pk x0 xp x))) else dx in
+  let solver := if tree then solver_tree value grad hv pc pm S chk 80 cfg_functions cfg_string_constants 200
+                else solver_hand value grad hv pc pm S chk 80 in
+  enc_dres (dresult_of (drun_default warm sc isc solver cfg_functions 40 cfg_nonlinear_equation_solve x0 pnew (if has_cb then DCb else DNone) uw up pold pold x0)).
 '''
 
 
@@ -107,6 +155,8 @@ class PolyObjective:
         self.tol = None               # set by run_impl: the convergence test is gg < tol**2 on every gradient the solver evaluates
         self.conv_margin = math.inf   # min over gradient evaluations of |gg - tol^2| / tol^2 (near-tie detection of the convergence test)
         self.stability_checks = 0
+        self.hole = case.get('hole')  # None or dict(mode=1 (NaN) | 2 (+inf), side=bool, h=float): value is NaN / +inf beyond h in the first coordinate
+        self.hole_evals = 0
 
     def _n(self, x):
         if self.noise is None:
@@ -114,6 +164,11 @@ class PolyObjective:
         return x * self.jnp.array(1.0 + self.noise.uniform(-1, 1, size=x.shape[0]) * 4.4e-16)
 
     def value(self, x):
+        if self.hole is not None:
+            x1, h = float(x[0]), self.hole['h']
+            if (h < x1) if self.hole['side'] else (x1 < h):
+                self.hole_evals += 1
+                return self.jnp.array(math.nan if self.hole['mode'] == 1 else math.inf)
         x = self._n(x)
         return 0.5 * (x @ (self.A @ x)) + self.b @ x + self.c @ (x * x * x) + self.d @ (x * x * x * x)
 
@@ -231,6 +286,21 @@ def too_small_cases(ctx, count):
     return out
 
 
+def hole_cases(ctx, count):
+    """stream for the NaN-rejection theorems: the objective VALUE is NaN (or +inf) on a half space next to the start point (gradient and
+    Hessian stay finite), default mode: the solver must reject every trial point in the hole, shrink and carry on"""
+    r = ctx.rng('hole')
+    out = []
+    for c in gen_cases(ctx, count, 'hole-base'):
+        side = r.random() < 0.5
+        delta = r.choice([0.0625, 0.125, 0.25, 0.5, 1.0])
+        c['hole'] = dict(mode=r.choice([1, 1, 2]), side=side, h=c['x0'][0] + (delta if side else -delta))
+        c['st'].update(use_incremental_objective=False, max_trust_iters=r.choice([3, 8, 25]))
+        c['kind'] = 'nan-hole' if c['hole']['mode'] == 1 else 'inf-hole'
+        out.append(c)
+    return out
+
+
 def exact_switch_cases():
     """F1's polynomial, a pure quadratic whose first step is exact, a zero-gradient start, a flat direction (modelObjective = 0)"""
     base = dict(t1=0.25, t2=1.75, eta1=1e-10, eta2=0.1, eta3=0.5, max_trust_iters=100, tol=1e-8, max_cg_iters=50, max_cumulative_cg_iters=1000,
@@ -338,9 +408,11 @@ def model_expr(case, cfg=False):
             st['max_cumulative_cg_iters'], C.cf(cg_tol), C.cf(st['cg_inexact_solve_ratio']), C.cf(st['tr_size']), C.cf(st['min_tr_size']),
             'true' if st['use_preconditioned_inner_product_for_cg'] else 'false', 'true' if st['use_incremental_objective'] else 'false'))
     args = '%s %s %s %s %s %d%%nat %s %s' % (cmat(case['A']), cmat(case['E']), cvec(case['b']), cvec(case['c']), cvec(case['d']), case['pk'], cvec(case['x0']), s)
+    hole = case.get('hole')
+    hargs = '' if not hole else ' %d%%nat %s %s' % (hole['mode'], 'true' if hole['side'] else 'false', C.cf(hole['h']))
     if cfg:
-        return 'run_cfg %s %s' % (args, 'true' if st.get('check_stability') else 'false')
-    return 'run_poly ' + args
+        return 'run_cfg%s %s %s%s' % ('_h' if hole else '', args, 'true' if st.get('check_stability') else 'false', hargs)
+    return 'run_poly%s %s%s' % ('_h' if hole else '', args, hargs)
 
 
 def parse_cfg(zs, n):
@@ -405,7 +477,7 @@ def close_vec(a, b, rt=1e-7, at=1e-9):
 
 def correspondence(ctx, model_ok):
     mods = _mods()
-    cases = exact_switch_cases() + gen_cases(ctx, ctx.n(150, 1500)) + directed_cases(ctx, ctx.n(100, 600)) + too_small_cases(ctx, ctx.n(16, 100))
+    cases = exact_switch_cases() + gen_cases(ctx, ctx.n(150, 1500)) + directed_cases(ctx, ctx.n(100, 600)) + too_small_cases(ctx, ctx.n(16, 100)) + hole_cases(ctx, ctx.n(30, 150))
     outs = []
     hist = {}
     distinct = set()
@@ -425,6 +497,10 @@ def correspondence(ctx, model_ok):
         ncb = sum(1 for k, _ in o['log'] if k == 'cb')
         bump('exit:' + ('converged' if o['flag'] else 'failed') + (':incremental' if c['st']['use_incremental_objective'] else ''))
         bump('kind:' + c['kind'])
+        if c.get('hole'):
+            ctx.count('hole_cases')
+            ctx.count('hole_cases_with_a_trial_point_in_the_hole', 1 if o['obj'].hole_evals > 0 else 0)
+            ctx.count('trial_points_in_the_hole', o['obj'].hole_evals)
         if ncb > 0 or not o['flag']:
             distinct.add(json.dumps([c['A'], c['E'], c['b'], c['c'], c['d'], c['pk'], c['x0'], c['st']], sort_keys=True))
         for tag, b in concl(c, o, mods):
@@ -453,6 +529,8 @@ def correspondence(ctx, model_ok):
     # the driver: parameters replaced before the solve (optimism.Objective + nonlinear_equation_solve through the shim)
     driver_stream(ctx, mods)
     convex_success_stream(ctx, mods)
+    warm_start_is_read_only(ctx)
+    driver_model_stream(ctx, mods, model_ok)
     if not model_ok:
         return
     res = C.coq_eval(IMPORTS, [model_expr(c) for c in cases], 'C01', shard=40, preamble=PREAMBLE, timeout=900)
@@ -664,6 +742,299 @@ def driver_stream(ctx, mods):
                      case=dict(kind='driver', A=a.tolist(), q=q, p_old=[float(t) for t in p_old[0]], p_new=[float(t) for t in p_new[0]], x0=[float(t) for t in x0]), concrete=True)
 
 
+def warm_start_is_read_only(ctx):
+    """assumption of model/M_C01_Drv.v, checked on the source: WarmStart.warm_start_increment only READS the objective (no attribute store,
+    no setattr, only the read-only oracle methods are called on it, it is not handed to anything else)"""
+    import ast
+    import os
+    src = open(os.path.join(C.REPO, 'optimism/WarmStart.py')).read()
+    fn = [n for n in ast.parse(src).body if isinstance(n, ast.FunctionDef) and n.name == 'warm_start_increment']
+    if len(fn) != 1:
+        ctx.fail('correspondence', 'WarmStart.warm_start_increment not found (or defined twice)')
+        return
+    fn = fn[0]
+    obj = fn.args.args[0].arg
+    allowed = {'jacobian_p_vec', 'jacobian_p2_vec', 'hessian_vec', 'apply_precond', 'p'}
+    parents = {}
+    for n in ast.walk(fn):
+        for ch in ast.iter_child_nodes(n):
+            parents[ch] = n
+    bad = []
+    for n in ast.walk(fn):
+        if isinstance(n, ast.Name) and n.id == obj:
+            if not isinstance(n.ctx, ast.Load):
+                bad.append('the objective parameter is rebound at line %d' % n.lineno)
+                continue
+            par = parents.get(n)
+            if not (isinstance(par, ast.Attribute) and par.value is n and isinstance(par.ctx, ast.Load) and par.attr in allowed):
+                bad.append('the objective is used other than by reading %s at line %d' % (sorted(allowed), n.lineno))
+        if isinstance(n, ast.Call) and isinstance(n.func, ast.Name) and n.func.id in ('setattr', 'delattr', 'exec', 'eval', 'vars'):
+            bad.append('%s called at line %d' % (n.func.id, n.lineno))
+    ctx.count('warm_start_read_only_checks')
+    for b in bad:
+        ctx.fail('correspondence', 'WarmStart.warm_start_increment may modify the objective (assumed read-only by the driver model): ' + b)
+
+
+class ParamPolyObjective(PolyObjective):
+    """f(x, p) = poly(x) - p[0].x with a settable attribute p (every store and the parameters current at every oracle call are recorded),
+    scaling / invScaling as the driver reads them"""
+
+    def __init__(self, jnp, case, p_old, noise=None):
+        self.b0 = jnp.array(case['b'])
+        self._p = (jnp.array(p_old),)
+        super().__init__(jnp, case, None, noise)
+        self.scaling = case['scaling'] if not isinstance(case['scaling'], list) else jnp.array(case['scaling'])
+        self.invScaling = case['invScaling'] if not isinstance(case['invScaling'], list) else jnp.array(case['invScaling'])
+        self.grad_params = []          # objective.p[0] at every gradient evaluation
+
+    @property
+    def b(self):
+        return self.b0 - self._p[0]
+
+    @b.setter
+    def b(self, v):
+        pass
+
+    @property
+    def p(self):
+        return self._p
+
+    @p.setter
+    def p(self, v):
+        self.log.append(('setp', [float(t) for t in v[0]]))
+        self._p = v
+
+    def gradient(self, x):
+        self.grad_params.append([float(t) for t in self._p[0]])
+        return super().gradient(x)
+
+    def jacobian_p_vec(self, x, dp):
+        return -dp
+
+    def update_precond(self, x):
+        self.log.append(('pc', [float(t) for t in x], [float(t) for t in self._p[0]]))
+        self.xp = x
+
+
+def driver_cases(ctx, count):
+    r = ctx.rng('driver-model')
+    out = []
+    for c in gen_cases(ctx, count, 'driver-model-base'):
+        n = c['n']
+        c['st'].update(use_incremental_objective=False)
+        c['p_old'] = [dy(r, -2, 2) for _ in range(n)]
+        c['p_new'] = [dy(r, -2, 2) for _ in range(n)]
+        k = r.choice(['one', 'scalar', 'vector'])
+        if k == 'one':
+            c['scaling'], c['invScaling'] = 1.0, 1.0
+        elif k == 'scalar':
+            c['scaling'], c['invScaling'] = 4.0, 0.25
+        else:
+            e = [r.choice([-2, -1, 0, 1, 2]) for _ in range(n)]
+            c['scaling'], c['invScaling'] = [2.0 ** t for t in e], [2.0 ** -t for t in e]
+        c['uw'], c['up'], c['has_cb'] = r.random() < 0.6, r.random() < 0.6, r.random() < 0.8
+        c['standin'] = r.random() < 0.6
+        c['kind'] = 'driver-model'
+        out.append(c)
+    return out
+
+
+def run_driver_impl(case, mods, noise=None):
+    jnp, ES = mods
+    obj = ParamPolyObjective(jnp, case, case['p_old'], noise)
+    st = settings_of(ES, case['st'])
+    obj.tol = st.tol
+    p_new = (jnp.array(case['p_new']),)
+    info = dict(dx=[0.0] * case['n'], warm_calls=0, warm_p=None)
+    orig = ES.WarmStart.warm_start_increment
+
+    def warm(objective, x, pNew, index=0):
+        info['warm_calls'] += 1
+        info['warm_p'] = [float(t) for t in objective.p[0]]
+        if case['standin']:       # a known function of everything the oracle can read: old objective.p, preconditioner state, x, pNew
+            dx = 0.25 * (objective.p[0] - pNew[0]) + (0.125 * x + 0.0625 * objective.apply_precond(x))
+        else:
+            dx = jnp.array(orig(objective, x, pNew, index))
+        info['dx'] = [float(t) for t in dx]
+        return dx
+
+    def cb(x, o):
+        obj.log.append(('cb', [float(t) for t in x]))
+    old = signal.signal(signal.SIGALRM, _alarm)
+    signal.alarm(SOLVE_LIMIT_S)
+    ES.WarmStart.warm_start_increment = warm
+    try:
+        with contextlib.redirect_stdout(io.StringIO()):
+            x, flag = ES.nonlinear_equation_solve(obj, jnp.array(case['x0']), p_new, st, callback=cb if case['has_cb'] else None,
+                                                  useWarmStart=case['uw'], updatePrecond=case['up'])
+    except Timeout:
+        return None
+    except Exception as ex:
+        return dict(raised=repr(ex))
+    finally:
+        ES.WarmStart.warm_start_increment = orig
+        signal.alarm(0)
+        signal.signal(signal.SIGALRM, old)
+    return dict(x=[float(t) for t in x], flag=bool(flag), log=obj.log, obj=obj, settings=st, info=info, p_after=[float(t) for t in obj.p[0]], p_is_requested=obj.p is p_new)
+
+
+def cscal(v):
+    return '(ScV %s)' % cvec(v) if isinstance(v, list) else '(ScS %s)' % C.cf(v)
+
+
+def drv_expr(case, o, tree):
+    me = model_expr(case)                      # 'run_poly A E b c d pk x0 S'
+    args = me[len('run_poly '):]
+    cb = lambda b: 'true' if b else 'false'
+    return 'run_drv %s %s %s %s %s %s %s %s %s %s %s %s' % (cb(tree), args, cb(case['st'].get('check_stability')), cscal(case['scaling']), cscal(case['invScaling']),
+                                                       cb(case['standin']), cvec(o['info']['dx']), cvec(case['p_old']), cvec(case['p_new']), cb(case['has_cb']), cb(case['uw']), cb(case['up']))
+
+
+def parse_drv(zs, n):
+    """-> (flag, x, objective.p afterwards, events) with events ('pc', x, par) / ('setp', p) / ('cb', x); None without a result"""
+    if len(zs) == 1 and zs[0] == -1:
+        return None
+    flag = bool(zs[0])
+    x = C.dec_floats(zs[1:1 + 2 * n])
+    par = C.dec_floats(zs[1 + 2 * n:1 + 4 * n])
+    i, ev, spar = 1 + 4 * n, [], None
+
+    def vecat(j):
+        return C.dec_floats(zs[j:j + 2 * n])
+    while i < len(zs):
+        code = zs[i]
+        i += 1
+        if code == 7:
+            ev.append(('pc', vecat(i + 2 * n), vecat(i)))
+            i += 4 * n
+        elif code == 8:
+            ev.append(('setp', vecat(i)))
+            i += 2 * n
+        elif code == 9:
+            spar = vecat(i)
+            ev.append(('solve', spar))
+            i += 2 * n
+        elif code == 1:
+            ev.append(('cb', vecat(i)))
+            i += 2 * n
+        elif code == 5:
+            ev.append(('pc', vecat(i), spar))
+            i += 2 * n
+        else:
+            raise ValueError('bad event code %r' % code)
+    return flag, x, par, ev
+
+
+def driver_concl(c, o):
+    """the driver theorems' conclusions on one run of the implementation"""
+    bad = []
+    if o['p_after'] != c['p_new'] or not o['p_is_requested']:
+        bad.append('objective.p after the call is not the requested p')
+    setp = [i for i, e in enumerate(o['log']) if e[0] == 'setp']
+    if len(setp) != 1 or o['log'][setp[0]][1] != c['p_new']:
+        bad.append('objective.p was not stored exactly once with the requested p (stores: %r)' % [o['log'][i][1] for i in setp])
+    else:
+        if any(e[0] == 'cb' or (e[0] == 'pc' and e[2] != c['p_old']) for e in o['log'][:setp[0]]):
+            bad.append('before the store objective.p = p something other than update_precond under the old parameters happened')
+        if any(e[0] == 'pc' and e[2] != c['p_new'] for e in o['log'][setp[0] + 1:]):
+            bad.append('update_precond after the store ran under parameters other than the requested p')
+    if any(g != c['p_new'] for g in o['obj'].grad_params):
+        bad.append('a gradient was evaluated by the solve under parameters other than the requested p')
+    if o['info']['warm_calls'] != (1 if c['uw'] else 0) or (c['uw'] and o['info']['warm_p'] != c['p_old']):
+        bad.append('the warm start did not run exactly once under the OLD parameters when requested (calls %d, under %r)' % (o['info']['warm_calls'], o['info']['warm_p']))
+    if o['flag']:
+        isc = onp.array(c['invScaling']) if isinstance(c['invScaling'], list) else c['invScaling']
+        xb = onp.array(o['x']) / isc
+        g = (onp.array(c['A']) @ xb + (onp.array(c['b']) - onp.array(c['p_new'])) + 3 * onp.array(c['c']) * xb ** 2 + 4 * onp.array(c['d']) * xb ** 3)
+        if not float(g @ g) < o['settings'].tol ** 2 * (1 + 1e-6) + 1e-300:
+            bad.append('success reported but |grad|^2 under the requested parameters = %.6g >= tol^2 = %.6g' % (float(g @ g), o['settings'].tol ** 2))
+    return bad
+
+
+def driver_near_tie(ctx, c, o, mods):
+    """near-tie rule of the solver stream, for a driver run: (c) a near tie of the convergence test, (b) objective differences between successive
+    DISTINCT points the solve reported (callback or update_precond; without a callback only the latter are visible) at rounding level (<= 64 ulp),
+    (a) the implementation itself changes flag / event kinds / result under <= 2 ulp noise on its oracle arguments (4 trials)"""
+    jnp = mods[0]
+    if o['obj'].conv_margin < 1e-6:
+        return True
+    k0 = max([i for i, e in enumerate(o['log']) if e[0] == 'setp'] + [0])
+    pts = []
+    for e in o['log'][k0 + 1:]:
+        if e[0] in ('cb', 'pc') and (not pts or pts[-1] != e[1]):
+            pts.append(e[1])
+    vs = [float(o['obj'].value(jnp.array(q))) for q in pts]
+    if any(abs(u - v) <= 64 * math.ulp(max(abs(u), abs(v), 1e-300)) for u, v in zip(vs, vs[1:])):
+        return True
+    for k in range(4):
+        o2 = run_driver_impl(c, mods, onp.random.RandomState(ctx.seed % 100000 + 31 * k))
+        if o2 is None or o2.get('raised') or o2['flag'] != o['flag'] or [e[0] for e in o2['log']] != [e[0] for e in o['log']] or not close_vec(o2['x'], o['x']):
+            return True
+    return False
+
+
+def driver_model_stream(ctx, mods, model_ok):
+    """nonlinear_equation_solve on duck-typed parametrised polynomial objectives: (L2) the driver theorems' conclusions on the implementation's run,
+    (L1) the interpreted extracted tree of the driver (with both solvers) against the implementation"""
+    jnp, ES = mods
+    cases = driver_cases(ctx, ctx.n(40, 150))
+    outs = []
+    for c in cases:
+        o = run_driver_impl(c, mods)
+        ctx.count('evaluations')
+        ctx.count('driver_model_cases')
+        outs.append(o)
+        if o is None or o.get('raised'):
+            ctx.count('driver_model_impl_no_result')
+            ctx.notes.append('driver model stream: %r' % (o and o['raised']))
+            continue
+        tag = 'uw=%s,up=%s,cb=%s' % (c['uw'], c['up'], c['has_cb'])
+        ctx.count('driver_paths:' + tag)
+        rep = dict({k: v for k, v in c.items()}, tag='driver-model', impl=dict(x=o['x'], flag=o['flag'], log=o['log']))
+        bad = driver_concl(c, o)
+        for b in bad:
+            ctx.fail('conclusion', 'nonlinear_equation_solve: ' + b, case=rep, concrete=True)
+    if not model_ok:
+        return
+    live = [(c, o) for c, o in zip(cases, outs) if o is not None and not o.get('raised')]
+    try:
+        res = C.coq_eval(IMPORTS, [drv_expr(c, o, t) for c, o in live for t in (True, False)], 'C01drv', shard=40, preamble=PREAMBLE, timeout=900)
+    except C.CoqError as ex:
+        ctx.fail('correspondence', 'the syntax tree extracted from nonlinear_equation_solve can no longer be interpreted: %s' % str(ex)[-600:])
+        return
+    mism = unstable = nores = 0
+    for k, (c, o) in enumerate(live):
+        n = c['n']
+        rt, rh = parse_drv(res[2 * k], n), parse_drv(res[2 * k + 1], n)
+        rep = dict({kk: v for kk, v in c.items()}, tag='driver-model', impl=dict(x=o['x'], flag=o['flag'], log=o['log']))
+        if rt is None or rh is None:
+            nores += 1
+            if (rt is None) != (rh is None):
+                ctx.fail('correspondence', 'nonlinear_equation_solve: the interpreted driver has a result with one solver (extracted tree / hand model) but not with the other', case=rep)
+            continue
+        ilog = [e for e in o['log'] if c['has_cb'] or e[0] != 'cb']
+        for name, r in (('extracted trust_region_minimize', rt), ('hand model of trust_region_minimize', rh)):
+            flag, x, par, ev = r
+            mev = [e for e in ev if e[0] != 'solve']
+            ok = (flag == o['flag'] and [e[0] for e in mev] == [e[0] for e in ilog] and par == c['p_new']
+                  and all(close_vec(a[1], b[1]) and (a[0] != 'pc' or a[2] == b[2]) for a, b in zip(mev, ilog)) and close_vec(x, o['x'])
+                  and all(e[1] == c['p_new'] for e in ev if e[0] == 'solve'))
+            if ok:
+                continue
+            stable = not driver_near_tie(ctx, c, o, mods)
+            if stable:
+                mism += 1
+                if mism <= 6:
+                    ctx.fail('correspondence', 'nonlinear_equation_solve: the interpreted extracted driver (solver: %s) gives flag %s, events %r, objective.p %r; the implementation flag %s, events %r'
+                             % (name, flag, [e[0] for e in ev], par, o['flag'], [e[0] for e in ilog]), case=rep)
+            else:
+                unstable += 1
+    ctx.count('driver_model_vs_impl_comparisons', 2 * len(live))
+    ctx.count('driver_model_mismatches', mism)
+    ctx.count('driver_model_unstable_near_tie', unstable)
+    ctx.count('driver_model_without_result', nores)
+
+
 def search(ctx, reasons):
     import copy
     c2 = copy.copy(ctx)
@@ -705,6 +1076,11 @@ def replay(ctx, path):
         print('no replayable failing input recorded; broken obligations:', rep.get('broken'))
         return 1
     mods = _mods()
+    if case.get('kind') == 'driver-model':
+        o = run_driver_impl(case, mods)
+        bad = ['no result'] if (o is None or o.get('raised')) else driver_concl(case, o)
+        print('implementation now:', bad or 'conclusion holds')
+        return 1 if bad else 0
     o = run_impl(case, mods)
     bad = concl(case, o, mods)
     print('implementation now:', bad or 'conclusion holds')
